@@ -1849,7 +1849,7 @@ static void InitFields(void) {
             M_403 | M_403C | M_505 | M_821 | M_601 | M_6000, False, False);
     AddReg3("STWBRX", "STBRX", (T31 << 26) + (662 << 1),
             M_403 | M_403C | M_505 | M_821 | M_601 | M_6000, False, False);
-    AddReg3("STWCX.", "STWCX.", (T31 << 26) + (150 << 1),
+    AddReg3("STWCX.", "STWCX.", (T31 << 26) + (150 << 1) + 1,
             M_403 | M_403C | M_505 | M_821 | M_601 | M_6000, False, False);
     AddReg3("STWUX", "STUX", (T31 << 26) + (183 << 1),
             M_403 | M_403C | M_505 | M_821 | M_601 | M_6000, False, False);
